@@ -525,13 +525,13 @@ def block_has(fn, b, pred):
 # "when the wait flag is true, the task set is waited on" (C12 / C15 completion clause)
 # ---------------------------------------------------------------------------------------------
 def flag_false_edges(fn, is_flag):
-    """Branch edges taken when the boolean flag expression is false: (block, succ index)."""
-    out = set()
-    for b, t in fn.branch_blocks():
-        a, pol = normalize_cond(t["cond"], True)
-        if is_flag(strip_casts(a)):
-            out.add((b, 1 if pol else 0))
-    return out
+    """Branch edges taken when the boolean flag expression is false: (block, succ index) -- however
+    the test is spelled (named temporary, `== false`, early return on `!flag`)."""
+    return fn.edges_where(lambda a: is_flag(strip_casts(a)), False)
+
+
+def flag_true_edges(fn, is_flag):
+    return fn.edges_where(lambda a: is_flag(strip_casts(a)), True)
 
 
 def path_without_wait(fn, is_flag, is_wait_event):
